@@ -50,7 +50,7 @@ func (c16) Runs(t Tier) int {
 	if t == Thorough {
 		return 3000
 	}
-	return 260
+	return 320
 }
 func (c16) RecordWidths() map[string]int { return nil }
 func (c16) RequiredProbes() []string {
@@ -478,6 +478,11 @@ func (c16) Run(ts *tape.Set, tier Tier) *Result {
 			if !ok {
 				return fmt.Sprintf("block %s of the returned DAG is not in the store", shortCid(c))
 			}
+			if !E[c.KeyString()] {
+				if c2, err := c.Prefix().Sum(data); err != nil || !c2.Equals(c) {
+					return fmt.Sprintf("block %s of the returned DAG is in the store with bytes that do not hash to it (a failed write was committed)", shortCid(c))
+				}
+			}
 			ls, err := blockLinks(c, data)
 			if err != nil {
 				return fmt.Sprintf("block %s does not decode: %v", shortCid(c), err)
@@ -644,6 +649,11 @@ func (c16) Run(ts *tape.Set, tier Tier) *Result {
 		}
 		if o.orderViolation != "" {
 			fail(&p, "c16/parent-before-child", "%s", o.orderViolation)
+			res.Excerpt = excerpt(o.st.Log, 12)
+			break
+		}
+		if o.st.TornCommits > 0 {
+			fail(&p, "c16/commit-after-failed-write", "the builder committed a block although writing its bytes had failed (%d such commits)", o.st.TornCommits)
 			res.Excerpt = excerpt(o.st.Log, 12)
 			break
 		}
